@@ -1046,6 +1046,13 @@ def _probe_altered(self, name, order):
         p.on_probe_altered(self, name, order)
 
 
+def _probe_armed(self, name, hook):
+    self.probe("hook_registered_at_run_time")
+    for p in self.plugins:
+        p.on_probe_armed(self, name, hook)
+
+
+Monitor.probe_armed = _probe_armed
 Monitor.on_written = _on_written
 Monitor.on_step_record = _on_step_record
 Monitor.on_processed = _on_processed
@@ -1064,5 +1071,5 @@ def _noop(self, *a, **k):
 
 
 for _n in ("pre_tick", "setup_failed", "on_probe_altered", "on_written", "on_step_record", "on_processed", "on_consult", "on_returned", "on_callback",
-           "on_tap", "on_probe_call"):
+           "on_tap", "on_probe_call", "on_probe_armed"):
     setattr(Plugin, _n, _noop)
